@@ -47,6 +47,27 @@ func readCases(path string) ([]json.RawMessage, error) {
 	return out, sc.Err()
 }
 
+// caseDirName: where a case lives is no part of any contract. A case may ask ("dirstyle") for a directory whose name
+// holds a blank, a non-ASCII letter, or the glob metacharacters that ordinary folders carry ("Taxes [2024]", "books{old}").
+func caseDirName(i int, raw json.RawMessage) string {
+	var st struct {
+		DirStyle int `json:"dirstyle"`
+	}
+	_ = json.Unmarshal(raw, &st)
+	n := strconv.Itoa(i)
+	switch st.DirStyle {
+	case 1:
+		return "my ledger " + n
+	case 2:
+		return "бухгалтерия" + n
+	case 3:
+		return "taxes [" + n + "]"
+	case 4:
+		return "books{" + n + "}"
+	}
+	return "c" + n
+}
+
 // runCases runs fn over all cases with a worker pool; results keep input order.
 // fn gets a private, empty directory.  A panic inside fn is reported as the
 // result {"panic": "..."} of that case (it is an observation, not a harness failure).
@@ -69,7 +90,7 @@ func runCases(f *stdFlags, fn func(idx int, raw json.RawMessage, dir string) (an
 		go func() {
 			defer wg.Done()
 			for i := range ch {
-				dir := filepath.Join(f.work, "c"+strconv.Itoa(i))
+				dir := filepath.Join(f.work, caseDirName(i, cases[i]))
 				_ = os.MkdirAll(dir, 0o755)
 				res, err := safeCall(fn, i, cases[i], dir)
 				_ = os.RemoveAll(dir)
